@@ -331,12 +331,20 @@ Fixpoint consistent (names caps : list text) (seen : list (text * text)) : bool 
     end
   | _, _ => true
   end.
+(* None also where the source panics with "KeyMatch4: number of tokens is not
+   equal to number of values": the key matches and the rewritten text has
+   another number of capture groups than there are {name} tokens (a pattern
+   that brings its own group, "/([^/]+)/{id}") *)
 Definition key_match4 (k1 k2 : text) : option bool :=
   let (t, ns) := rewrite_km4 k2 in
-  option_map (fun p => match amatch p k1 with
-                       | Some caps => consistent ns caps []
-                       | None => false end)
-             (parse_regex t).
+  match parse_regex t with
+  | Some p => match amatch p k1 with
+              | Some caps => if Nat.eqb (length ns) (length caps)
+                             then Some (consistent ns caps []) else None
+              | None => Some false
+              end
+  | None => None
+  end.
 
 (* ------------------------------------------------------------------ *)
 (* the documented meaning: patterns and keys as '/'-separated segments  *)
@@ -450,7 +458,7 @@ Definition spec_km4 (p : list seg) (k : text) : bool :=
 Definition spec_km5 (p : list seg) (k : text) : bool := spec_km p (cut_query k).
 
 (* regex_match(key1, key2) for the documented use (alternatives of literal
-   words, optionally anchored): "^(GET|POST)$", "GET", "(GET)|(POST)".
+   words, optionally anchored): "^(GET|POST)$", "GET", "(GET)|(POST)", "^GET".
    Unanchored search. None = outside that class. *)
 Fixpoint is_infix (w s : text) : bool :=
   match s with
@@ -479,6 +487,10 @@ Definition regex_match_words (k pat : text) : option bool :=
   let (body, a_end) := match rev body with
                        | d :: m => if Ascii.eqb d "$"%char then (rev m, true) else (body, false)
                        | [] => (body, false) end in
+  (* an anchored BARE alternation ("^GET|POST$", "^GET|POST", "GET|POST$"): the
+     anchors bind tighter than the bar, ("^GET")|("POST$"); outside the class *)
+  if (a_start || a_end) && teqb (strip_parens body) body && Nat.ltb 1 (length (split_bar body []))
+  then None else
   let body := if a_start || a_end then strip_parens body else body in
   let words := map strip_parens (split_bar body []) in
   if forallb safe_word words then
